@@ -748,7 +748,7 @@ func (s *gsSlicer) switchLike(hdr string, body *ast.BlockStmt, ind string) []str
 
 type gsSliceSpec struct {
 	pkg, recv, fn, lean string
-	full                bool // the whole body, normalised, instead of the slice
+	full                bool   // the whole body, normalised, instead of the slice
 	mention             string // only the top-level statements of the body that mention this identifier (normalised)
 }
 
